@@ -39,6 +39,9 @@ func Instantiate(s Scenario, r *rand.Rand) (b *Built, err error) {
 		b.Toks = append(b.Toks, t)
 		vals[j] = MkValue(l.Type, t).Interface()
 	}
+	if s.Mode == "convert" {
+		s.NDef = 0 // Convert has no function to attach defaults to
+	}
 	var defaults []am.Arg
 	for j := 0; j < s.NDef && j < len(s.Inputs); j++ {
 		defaults = append(defaults, apiArg(s.Inputs[j], vals[j], r.Intn(6)))
